@@ -93,13 +93,18 @@ fn seed2(vals: &[f64], i: usize, j: usize) -> Vec<Jet<Jet<Fe>>> {
         .collect()
 }
 
+/// the fixed float point (px, py) extended to n variables (pairwise different coordinates)
+pub fn point_n(px: f64, py: f64, n: usize) -> Vec<f64> {
+    (0..n).map(|k| if k == 0 { px } else if k == 1 { py } else { 0.5 * px + 0.25 * py + 0.43 * (k as f64 - 1.0) }).collect()
+}
+
 /// is the reference derivative defined at one of the fixed float points?  (A refused
 /// differentiation is only judged if the function has a sampled point in the interior of its
 /// domain; `(2-2)^x^(2-2)` = (0^x)^0 has none.)
 fn reference_defined_somewhere(tree: &Tree, t: &Table, idxs: &[usize]) -> bool {
     let vars = tree.vars();
     POINTS.iter().any(|(px, py)| {
-        let pt: Vec<f64> = if vars.len() > 2 { vec![*px; vars.len()] } else { [*px, *py][..vars.len().min(2)].to_vec() };
+        let pt: Vec<f64> = point_n(*px, *py, vars.len());
         let refd: Fe = if idxs.len() == 1 { eval_num::<Jet<Fe>>(tree, t, &vars, &seed1(&pt, idxs[0])).d } else { eval_num::<Jet<Jet<Fe>>>(tree, t, &vars, &seed2(&pt, idxs[0], idxs[1])).d.d };
         refd.defined()
     })
@@ -120,8 +125,7 @@ pub fn compare_float(tree: &Tree, t: &Table, text: &str, prov: Prov, idxs: &[usi
             return v;
         }
         for (px, py) in POINTS {
-            let pt: Vec<f64> = [px, py][..vars.len().min(2)].to_vec();
-            let pt = if vars.len() > 2 { vec![px; vars.len()] } else { pt };
+            let pt: Vec<f64> = point_n(px, py, vars.len());
             let refd: Fe = if idxs.len() == 1 { eval_num::<Jet<Fe>>(tree, t, &vars, &seed1(&pt, idxs[0])).d } else { eval_num::<Jet<Jet<Fe>>>(tree, t, &vars, &seed2(&pt, idxs[0], idxs[1])).d.d };
             let fe_pt: Vec<Fe> = pt.iter().map(|x| Fe::exact(*x)).collect();
             acc.transitions += 1;
@@ -185,7 +189,12 @@ pub fn compare_exact(tree: &Tree, t: &Table, text: &str, prov: Prov, idxs: &[usi
             let mut g = Vec::new();
             for a in &QGRID[..6] {
                 for b in &QGRID[3..9] {
-                    g.push(vec![Q::frac(a.0, a.1), Q::frac(b.0, b.1)]);
+                    // (further variables: fixed values that differ from each other and from a, b)
+                    let mut p = vec![Q::frac(a.0, a.1), Q::frac(b.0, b.1)];
+                    for k in 2..vars.len() {
+                        p.push(Q::frac(2 * k as i64 + 1, k as i64 + 5));
+                    }
+                    g.push(p);
                 }
             }
             g
@@ -364,6 +373,13 @@ pub fn run(tier: Tier) -> i32 {
     } else {
         campaign(&t, Alphabet { leaves: leaves(&["x", "y", "2", "0.5"]), uns: uns_few.clone(), bins: bins5.clone() }, &[(2, 2), (3, 1)], &[Prov::FlatParse, Prov::DeepParse], false, &mut rep, "n3u1-few");
         campaign(&t, Alphabet { leaves: leaves(&["x", "2"]), uns: vec![], bins: bins5.clone() }, &[(4, 0)], &[Prov::FlatParse, Prov::DeepParse], false, &mut rep, "n4-single-var");
+    }
+    // three variables on up to three nesting levels (a nested level that mentions only some of
+    // the variables of the whole expression)
+    if th {
+        campaign(&t, Alphabet { leaves: leaves(&["x", "y", "z"]), uns: ops(&t, &["sin", "-", "exp"], true), bins: ops(&t, &["*", "+", "/"], false) }, &[(3, 1), (3, 2), (4, 1)], &PROVS, false, &mut rep, "three-variables-nested");
+    } else {
+        campaign(&t, Alphabet { leaves: leaves(&["x", "y", "z"]), uns: ops(&t, &["sin", "-"], true), bins: ops(&t, &["*", "/"], false) }, &[(3, 1), (3, 2)], &PROVS, false, &mut rep, "three-variables-nested");
     }
     let _ = Q::int(0).r().map(|r| r.is_zero());
     // many operators on one level with mixed priorities (the application order of a deep
